@@ -14,6 +14,8 @@ ID = "C16"
 
 def setup(ctx):
     hooks.RATE = 10
+    from . import history as H
+    H.PROBE_RATE = 0.4
 
 
 def shaped_graph(rng, version):
@@ -78,7 +80,7 @@ def cases(rng, tier, shard, nshards):
     from . import history as H
     while True:
         if rng.random() < 0.25:
-            c = H.gen_history(rng, nsteps=rng.randint(3, 12), failing=0.1, fanout=True, tags=False)
+            c = H.gen_history(rng, nsteps=rng.randint(3, 12), failing=0.3, fanout=True, tags=False)
             c["k"] = "history"
             yield c
             continue
